@@ -1023,6 +1023,327 @@ def check_corpus(ck, haar):
                          code=got, expected=c['breaks'], clause=c.get('clause', 'C11_corpus'))
 
 
+# ----------------------------------------------------------------------------
+# (a') bounded noise: the deterministic theorems C11_noise_* evaluated on the CODE
+
+
+NOISE_MODES = ['uniform', 'extreme', 'adversarial', 'uniform', 'one-sided']
+
+
+def gen_bounded_case(rng, idx):
+    """clean + noise with |noise_i| <= eps, everything on the 1/1024 grid (so HaarConv's running sums are exact).
+    Steps: (D, eps) inside the theorems' range 4 * eps < D (eps at the largest admissible grid value half of the
+    time); flats: eps up to 1/4.  Returns a dict."""
+    kind = ['step', 'step', 'flat', 'step'][idx % 4]
+    n = rng.choice([64, 65, 100, 400, rng.randint(64, 400), rng.randint(64, 400)])
+    wsel = (idx // 4) % 4
+    if wsel in (0, 1):
+        wkind, wt = 'none', None
+    elif wsel == 2:
+        wkind, wt = 'upper', [rng.randint(WGRID // 2, WGRID) / WGRID for _ in range(n)]
+    else:
+        wkind, wt = 'half-one', [rng.choice([0.5, 1.0]) for _ in range(n)]
+    mode = NOISE_MODES[(idx // 2) % len(NOISE_MODES)]
+    if kind == 'flat':
+        cg = rng.choice([0, 0, GRID, -GRID, rng.randint(-2 * GRID, 2 * GRID)])
+        eg = rng.choice([1, 8, 51, 102, 150, 256])
+        clean = [cg] * n
+        t = a = b = None
+        dg = 0
+    else:
+        a, b = rng.choice(STEP_LEVELS + STEP_LEVELS + [(grid(rng.uniform(-2, 2)), grid(rng.uniform(-2, 2)))])
+        ag, bg = int(round(a * GRID)), int(round(b * GRID))
+        if abs(bg - ag) < 8:
+            bg = ag + rng.choice([-1, 1]) * rng.randint(8, GRID)
+        dg = abs(bg - ag)
+        emax = (dg - 1) // 4                     # largest grid eps with 4 * eps < D
+        eg = rng.choice([emax, emax, max(1, emax // 2), max(1, emax // 10), rng.randint(1, emax)])
+        if rng.random() < 0.8:
+            t = rng.choice([32, n - 32, rng.randint(32, n - 32)])
+        else:
+            t = rng.randint(2, n - 2)            # fewer than 32 bins on one side: only the levels with h <= min(t, n - t)
+        clean = [ag] * t + [bg] * (n - t)
+        a, b = ag / GRID, bg / GRID
+    if mode == 'uniform':
+        noise = [rng.randint(-eg, eg) for _ in range(n)]
+    elif mode == 'one-sided':
+        s = rng.choice([-1, 1])
+        noise = [s * rng.randint(0, eg) for _ in range(n)]
+    else:
+        noise = [rng.choice([-eg, eg]) for _ in range(n)]
+        if mode == 'adversarial' and t is not None:
+            # the worst pattern for the neighbour of t at one level: it raises conv(t +- 1) against conv(t) by 4 eps
+            h = 2 ** rng.choice(LEVELS)
+            s = 1 if b > a else -1
+            side = rng.choice([-1, 1])
+            for j, v in ((t + h, s), (t, -s), (t - h, s)) if side > 0 else ((t - 1 + h, -s), (t - 1, s), (t - 1 - h, -s)):
+                if 0 <= j < n:
+                    noise[j] = v * eg
+    sig = [(c + e) / GRID for c, e in zip(clean, noise)]
+    return {'kind': kind, 'n': n, 't': t, 'a': a, 'b': b, 'D': dg / GRID, 'eps': eg / GRID, 'mode': mode,
+            'wkind': wkind, 'wt': wt, 'signal': sig, 'clean': [c / GRID for c in clean]}
+
+
+def bounded_noise_level_oracle(haar, c, h):
+    """the bounds of C11_noise_conv_bound / _peak_location / _local_peaks / _flat / _step_weighted at half-width h,
+    evaluated on the code's HaarConv and FindLocalPeaks.  -> (clause, text, detail) of the first failure, or None"""
+    n, t, eps, D, wt = c['n'], c['t'], c['eps'], c['D'], c['wt']
+    tol = 1e-9
+    I = np.array(c['signal'], dtype=float)
+    W = None if wt is None else np.array(wt, dtype=float)
+    conv = [float(x) for x in haar.HaarConv(I, W, h)]
+    scale = scale_for(wt, h)
+    bound = (2 * h * eps / scale) if wt is None else (2 * eps * scale)
+    cf = conv_closed_form(c['clean'], wt, h)
+    if cf is None:
+        clean = [0.0] * n
+    else:
+        clean = [float(x) / scale for x in cf] if wt is None else [float(x) * scale for x in cf]
+    if len(conv) != n:
+        return 'C11_noise_conv_bound', 'HaarConv output length', {'code': len(conv), 'expected': n}
+    worst = max(abs(x - y) for x, y in zip(conv, clean))
+    if worst > bound + tol:
+        k = max(range(n), key=lambda i: abs(conv[i] - clean[i]))
+        return ('C11_noise_conv_bound' if wt is None else 'C11_noise_conv_bound_weighted',
+                'h=%d: |conv(clean + noise) - conv(clean)| = %.6g at k=%d exceeds the noise bound %.6g (eps %.6g)'
+                % (h, worst, k, bound, eps), {'code': conv[k], 'expected': clean[k]})
+    if c.get('sharp'):
+        return None
+    if c['kind'] == 'flat':
+        if max(abs(x) for x in conv) > bound + tol:
+            return 'C11_noise_flat', 'h=%d: a flat noisy profile has |conv| above the noise bound %.6g' % (h, bound), \
+                {'code': max(abs(x) for x in conv), 'expected': bound}
+        peaks = [int(x) for x in haar.FindLocalPeaks(np.array(conv))]
+        tau = bound * (1 + 1e-6) + 1e-9
+        kept = [p for p in peaks if abs(conv[p]) >= tau]
+        if kept:
+            return 'C11_noise_flat', 'h=%d: a peak of a flat noisy profile survives a threshold above the noise bound' % h, \
+                {'code': kept, 'expected': []}
+        return None
+    if not (h <= t and t + h <= n):
+        return None
+    if wt is None:
+        tent = [(c['b'] - c['a']) / scale * max(0, h - abs(k - t)) for k in range(n)]
+        if max(abs(x - y) for x, y in zip(conv, tent)) > bound + tol:
+            return 'C11_noise_peak_location', 'h=%d: the noisy convolution leaves the band tent +- noise bound' % h, {'code': conv}
+        floor = (h * D - 2 * h * eps) / scale
+        dl = (D - 4 * eps) / scale
+    else:
+        floor = (D - 2 * eps) * scale
+        dl = None
+    top = abs(conv[t])
+    if top < floor - tol:
+        return ('C11_noise_peak_location' if wt is None else 'C11_noise_step_weighted',
+                'h=%d: |conv(t)| = %.6g is below the peak floor %.6g' % (h, top, floor), {'code': top, 'expected': floor})
+    for k in range(n):
+        m = abs(k - t)
+        if m >= h and abs(conv[k]) > bound + tol:
+            return ('C11_noise_peak_location' if wt is None else 'C11_noise_step_weighted',
+                    'h=%d: |conv(%d)| = %.6g at distance %d >= h from the step exceeds the noise bound %.6g'
+                    % (h, k, abs(conv[k]), m, bound), {'code': conv[k], 'expected': bound})
+        if m >= h and not abs(conv[k]) < top:
+            return ('C11_noise_peak_location' if wt is None else 'C11_noise_step_weighted',
+                    'h=%d: a position at distance >= h is not strictly below |conv(t)|' % h, {'code': conv[k], 'expected': top})
+        if wt is None and 0 < m:
+            if not abs(conv[k]) < top:
+                return 'C11_noise_peak_location', ('h=%d: |conv(%d)| = %.9g is not strictly below |conv(t=%d)| = %.9g although '
+                                                   '4 eps < D (eps %.6g, D %.6g): the maximum is not at t' % (h, k, abs(conv[k]), t, top, eps, D)), \
+                    {'code': conv[k], 'expected': top}
+            if m <= h and abs(conv[k]) + m * dl > top + tol:
+                return 'C11_noise_peak_location', 'h=%d: |conv| drops by less than (D - 4 eps)/scale per bin near t (k=%d)' % (h, k), \
+                    {'code': abs(conv[k]), 'expected': top - m * dl}
+    if wt is not None:
+        # C11_noise_peak_within_d_weighted: the smallest d with 4 h eps wmax < d D wmin (exact arithmetic on the dyadic inputs)
+        wmin, wmax = Fraction(min(wt)), Fraction(max(wt))
+        dmin = int((4 * h * Fraction(eps) * wmax) / (Fraction(D) * wmin)) + 1
+        if 1 <= dmin <= h:
+            for k in range(n):
+                if abs(k - t) >= dmin and not abs(conv[k]) < top:
+                    return 'C11_noise_peak_within_d_weighted', ('h=%d: weights in [%s, %s], 4 h eps wmax < d D wmin for d=%d, yet |conv(%d)| at '
+                                                                'distance %d is not strictly below |conv(t)|'
+                                                                % (h, wmin, wmax, dmin, k, abs(k - t))), {'code': conv[k], 'expected': top}
+    am = max(range(n), key=lambda i: abs(conv[i]))
+    if (wt is None and am != t) or abs(am - t) > h - 1:
+        return ('C11_noise_peak_location' if wt is None else 'C11_noise_step_weighted',
+                'h=%d: argmax |conv| = %d, step at %d' % (h, am, t), {'code': am, 'expected': t})
+    if wt is None and t + 2 <= n:
+        peaks = [int(x) for x in haar.FindLocalPeaks(np.array(conv))]
+        if t not in peaks:
+            return 'C11_noise_local_peaks', 'h=%d: FindLocalPeaks does not report the step position' % h, {'code': peaks, 'expected': t}
+        for p in peaks:
+            if p != t and (abs(p - t) < h or abs(conv[p]) > bound + tol):
+                return 'C11_noise_local_peaks', ('h=%d: spurious peak %d at distance %d from t with |value| %.6g (noise bound %.6g)'
+                                                 % (h, p, abs(p - t), abs(conv[p]), bound)), {'code': peaks, 'expected': t}
+        for tau in (0.5 * (bound + floor), bound * (1 + 1e-6) + 1e-9, floor):
+            if bound + tol < tau <= floor and [p for p in peaks if abs(conv[p]) >= tau] != [t]:
+                return 'C11_noise_local_peaks', 'h=%d: a threshold between the noise bound and the peak floor does not keep exactly [t]' % h, \
+                    {'code': [p for p in peaks if abs(conv[p]) >= tau], 'expected': [t]}
+    return None
+
+
+def corpus_bounded_cases():
+    out = []
+    for e in load_corpus().get('bounded_noise', []):
+        n, t, ag, bg, eg, h = e['n'], e['t'], e['ag'], e['bg'], e['eg'], e['h']
+        if e['pattern'] == 'alt3':
+            noise = [(eg, -eg, eg // 2)[i % 3] for i in range(n)]
+        else:
+            noise = [eg if i % 2 == 0 else -eg for i in range(n)]
+            s = 1 if bg > ag else -1
+            for j, v in ((t + h, s), (t, -s), (t - h, s), (t - 1 + h, -s), (t - 1, s), (t - 1 - h, -s)):
+                if 0 <= j < n:
+                    noise[j] = v * eg
+        clean = [ag] * n if t is None else [ag] * t + [bg] * (n - t)
+        out.append({'kind': 'flat' if t is None else 'step', 'n': n, 't': t, 'a': ag / GRID, 'b': bg / GRID,
+                    'D': abs(bg - ag) / GRID, 'eps': eg / GRID, 'mode': 'corpus:' + e['pattern'], 'wkind': 'none', 'wt': None,
+                    'signal': [(c + x) / GRID for c, x in zip(clean, noise)], 'clean': [c / GRID for c in clean],
+                    'sharp': bool(e.get('sharp')), 'h': h, 'what': e['what']})
+    return out
+
+
+def check_bounded_noise(ck, haar, n_cases):
+    stats = {'cases': 0, 'levels_checked': 0, 'by_kind': {}, 'by_mode': {}, 'by_weights': {}, 'eps_over_D': {},
+             'seg_theorem': {'hypotheses_hold': 0, 'fdr_admits_noise_sized_peak': 0, 'no_level_keeps_t': 0, 'not_applicable': 0},
+             'flat_seg_theorem': {'hypotheses_hold': 0, 'threshold_not_above_bound': 0}}
+    cases = corpus_bounded_cases() + [gen_bounded_case(ck.rng, i) for i in range(n_cases)]
+    conv_reqs, conv_meta = [], []
+    for ci, c in enumerate(cases):
+        n, t, wt = c['n'], c['t'], c['wt']
+        stats['cases'] += 1
+        if c.get('sharp'):
+            # D = 4 eps exactly: the planted pattern must tie conv(t + 1) with conv(t) (the hypothesis 4 eps < D is sharp)
+            cv = [float(x) for x in haar.HaarConv(np.array(c['signal'], dtype=float), None, c['h'])]
+            stats['sharpness_tie_observed'] = bool(cv[t + 1] == cv[t])
+            if cv[t + 1] != cv[t]:
+                ck.violation('corpus: %s -- HaarConv does not give conv(t+1) = conv(t)' % c['what'],
+                             {'fn': 'HaarConv', 'signal': c['signal'], 'h': c['h'], 't': t}, code=[cv[t], cv[t + 1]],
+                             expected='equal', clause='C11_conv_window')
+        for key, val in (('by_kind', c['kind']), ('by_mode', c['mode']), ('by_weights', c['wkind'])):
+            stats[key][val] = stats[key].get(val, 0) + 1
+        if c['kind'] == 'step' and not c.get('sharp'):
+            r = c['eps'] / c['D']
+            lab = '<0.05' if r < 0.05 else ('<0.15' if r < 0.15 else ('<0.24' if r < 0.24 else '[0.24,0.25)'))
+            stats['eps_over_D'][lab] = stats['eps_over_D'].get(lab, 0) + 1
+        case = {'fn': 'HaarConv/FindLocalPeaks/haarSeg', 'stream': 'bounded-noise', 'kind': c['kind'], 'signal': c['signal'],
+                'weight': wt, 't': t, 'a': c['a'], 'b': c['b'], 'eps': c['eps'], 'mode': c['mode']}
+        ck.count(['bounded', c['kind'], c['mode'], c['wkind'], n, t, c['eps'], c['signal'][:8]], nontrivial=True,
+                 cls='bounded-noise:%s:%s:%s' % (c['kind'], c['mode'], 'w' if wt is not None else 'u'))
+        hs = [2 ** l for l in LEVELS] + ([1, 3, n, n + 1] if c['kind'] == 'flat' else [])
+        bad = None
+        for h in hs:
+            stats['levels_checked'] += 1
+            bad = guarded(bounded_noise_level_oracle, haar, c, h)
+            if isinstance(bad, Err):
+                ck.violation('bounded-noise stream: the code raised %s' % bad.msg, case, code=bad, clause='C11_noise_conv_bound')
+                break
+            if bad:
+                ck.violation('bounded noise: ' + bad[1], dict(case, h=h), clause=bad[0], **bad[2])
+                break
+            if h <= n and h in (2, 32):
+                conv_reqs.append([c['signal'], wt, h, scale_for(wt, h)])
+                conv_meta.append((ci, h))
+        if bad or c.get('sharp'):
+            continue
+        # the whole of haarSeg, with the code's own FDR thresholds: C11_noise_step_seg / C11_noise_flat as implications
+        q = 1e-4
+        I = np.array(c['signal'], dtype=float)
+        W = None if wt is None else np.array(wt, dtype=float)
+        with FdrTap(haar) as tap:
+            r = guarded(haar.haarSeg, I, q, W=W)
+        if isinstance(r, Err):
+            ck.violation('haarSeg raised %s' % r.msg, case, code=r, clause='C11_sizes')
+            continue
+        st = [int(x) for x in r['start']]
+        mean = [float(x) for x in r['mean']]
+        bounds = [(2 * 2 ** l * c['eps'] / scale_for(None, 2 ** l)) if wt is None else (2 * c['eps'] * scale_for(wt, 2 ** l))
+                  for l in LEVELS]
+        if len(tap.calls) != len(LEVELS):
+            ck.tie_break('haarSeg ran %d levels, the theorems speak about %d' % (len(tap.calls), len(LEVELS)), case)
+            continue
+        # the fallback regime of FDRThres (C11_noise_*_fallback): no p-value passes at any level with two or more peaks
+        pv, ab, _, _ = fdr_oracles(tap.calls)
+        nopass = [len(x) < 2 or not bool((np.array(p) <= (np.arange(1, len(x) + 1) / len(x)) * qq).any())
+                  for (x, qq, _, _), p in zip(tap.calls, pv)]
+        fb = stats.setdefault('fallback_theorems', {'step_regime_holds': 0, 'step_found_at_t': 0, 'step_lost_no_level_absorbs': 0,
+                                                    'step_a_p_value_passes': 0, 'flat_regime_holds': 0, 'flat_outside_regime': 0})
+        if c['kind'] == 'flat':
+            reg = all(len(x) == 0 or (len(x) >= 2 and np_ and not a_) for (x, _, _, _), np_, a_ in zip(tap.calls, nopass, ab))
+            if reg:
+                fb['flat_regime_holds'] += 1
+                if st != [0] or abs(mean[0] - c['clean'][0]) > c['eps'] + 1e-9:
+                    ck.violation('bounded noise, flat profile: no p-value passes and the 1e-16 fallback is not absorbed at any level, yet '
+                                 'haarSeg does not report one segment with mean within eps of the level', case,
+                                 code={'start': st, 'mean': mean}, expected={'start': [0], 'mean': c['clean'][0]},
+                                 clause='C11_noise_flat_fallback')
+                    continue
+            else:
+                fb['flat_outside_regime'] += 1
+        elif wt is None and 32 <= t <= n - 32:
+            if all(nopass):
+                fb['step_regime_holds'] += 1
+                found = any(len(x) < 2 or a_ for (x, _, _, _), a_ in zip(tap.calls, ab))
+                fb['step_found_at_t' if found else 'step_lost_no_level_absorbs'] += 1
+                exp_st = [0, t] if found else [0]
+                bad_means = found and len(mean) == 2 and (abs(mean[0] - c['a']) > c['eps'] + 1e-9 or abs(mean[1] - c['b']) > c['eps'] + 1e-9)
+                if st != exp_st or bad_means:
+                    ck.violation('bounded noise (eps %.6g < D/4, D %.6g), FDR fallback regime (no passing p-value at any level): haarSeg '
+                                 'must report %s (a level absorbs the 1e-16 or has t as its only peak: %s)'
+                                 % (c['eps'], c['D'], 'exactly the breakpoint t=%d with means within eps' % t if found else 'no breakpoint', found),
+                                 case, code={'start': st, 'mean': mean}, expected={'start': exp_st}, clause='C11_noise_step_seg_fallback')
+                    continue
+            else:
+                fb['step_a_p_value_passes'] += 1
+        if c['kind'] == 'flat':
+            hyp = all(len(x) == 0 or T > bnd + 1e-9 for (x, _, _, T), bnd in zip(tap.calls, bounds))
+            if not hyp:
+                # (the code's fallback threshold is max|peak| + 1e-16, which is below the worst-case bound: the theorem's
+                # hypothesis fails although nothing is kept -- only the outcome is recorded)
+                stats['flat_seg_theorem']['threshold_not_above_bound'] += 1
+                key = 'one_segment_anyway' if st == [0] else 'segmented'
+                stats['flat_seg_theorem'][key] = stats['flat_seg_theorem'].get(key, 0) + 1
+                continue
+            stats['flat_seg_theorem']['hypotheses_hold'] += 1
+            cval = c['clean'][0]
+            if st != [0] or abs(mean[0] - cval) > c['eps'] + 1e-9:
+                ck.violation('bounded noise, flat profile: every level threshold is above the noise bound, yet haarSeg does not '
+                             'report one segment with mean within eps of the level', case, code={'start': st, 'mean': mean},
+                             expected={'start': [0], 'mean': cval}, clause='C11_noise_flat')
+            continue
+        if wt is not None or not (32 <= t <= n - 32):
+            stats['seg_theorem']['not_applicable'] += 1
+            continue
+        convs = [[float(x) for x in haar.HaarConv(I, None, 2 ** l)] for l in LEVELS]
+        h1 = all(len(x) < 2 or T > bnd + 1e-9 for (x, _, _, T), bnd in zip(tap.calls, bounds))
+        h2 = any(T <= abs(cv[t]) for (x, _, _, T), cv in zip(tap.calls, convs))
+        if not h1:
+            stats['seg_theorem']['fdr_admits_noise_sized_peak'] += 1
+            continue
+        if not h2:
+            stats['seg_theorem']['no_level_keeps_t'] += 1
+            if st != [0]:
+                ck.violation('bounded noise: no level threshold is <= |conv(t)| and all are above the noise bound, yet haarSeg reports '
+                             'a breakpoint', case, code={'start': st}, expected={'start': [0]}, clause='C11_noise_level_addon')
+            continue
+        stats['seg_theorem']['hypotheses_hold'] += 1
+        if st != [0, t] or abs(mean[0] - c['a']) > c['eps'] + 1e-9 or abs(mean[1] - c['b']) > c['eps'] + 1e-9:
+            ck.violation('bounded noise (eps %.6g < D/4, D %.6g): the level thresholds satisfy the hypotheses of C11_noise_step_seg, yet '
+                         'haarSeg does not report exactly the breakpoint t=%d with means within eps of a, b' % (c['eps'], c['D'], t),
+                         case, code={'start': st, 'mean': mean}, expected={'start': [0, t], 'mean': [c['a'], c['b']]},
+                         clause='C11_noise_step_seg')
+    # the same signals through the model (correspondence of the stream): HaarConv at the first and last level
+    model = vlib.model_batch_parallel('c11_conv', conv_reqs)
+    for (ci, h), req, m in zip(conv_meta, conv_reqs, model):
+        c = cases[ci]
+        W = None if c['wt'] is None else np.array(c['wt'], dtype=float)
+        code = guarded(lambda: [float(x) for x in haar.HaarConv(np.array(c['signal'], dtype=float), W, h)])
+        if isinstance(code, Err):
+            continue
+        if not allclose(code, m):
+            ck.tie_break('model haar_conv differs from HaarConv (bounded-noise stream)',
+                         {'fn': 'HaarConv', 'signal': c['signal'], 'weight': c['wt'], 'h': h}, code=code, model=m)
+    ck.extra['bounded_noise'] = stats
+
+
 def core_correspondence(ck, haar):
     quick = ck.tier == 'quick'
     n_cases = 130 if quick else 2500
@@ -1081,6 +1402,7 @@ def core_correspondence(ck, haar):
     timed('one_chrom', check_one_chrom, ck, haar, 60 if quick else 1500)
     timed('segment_haar', check_segment_haar, ck, haar, 14 if quick else 300)
     timed('pulse', check_pulse, ck, haar, 120 if quick else 5000)
+    timed('bounded_noise', check_bounded_noise, ck, haar, 600 if quick else 8000)
     ck.extra['core_parts_s'] = timing
     ck.extra['core_s'] = round(time.time() - t0, 1)
 
@@ -1262,7 +1584,23 @@ def run(ck, scratch):
                'the exact peak list on the code\'s HaarConv / FindLocalPeaks, every row mean against the Fraction mean of its bins; '
                'one_chrom on a stub arm (identity smoothing, random bin coordinates) and segment_haar on real CopyNumArrays (by_arm and '
                'smooth_log2 taken from the code) against the table oracle and the model; PulseConv against the model / the mirrored moving '
-               'average, and the dead rawI branch. monitoring: generated step/flat/mixed profiles per the quantifier through '
+               'average, and the dead rawI branch. bounded-noise stream (the deterministic theorems C11_noise_* as direct oracles on the '
+               'CODE): clean + noise on the 1/1024 grid, n in 64..400, step at t (80%: 32 <= t <= n-32 biased to 32 / n-32, else any t in '
+               '2..n-2 with only the levels h <= min(t, n-t)), steps 0|-1, 0|+0.585, 0|+1 both directions + random heights >= 8/1024, '
+               'eps uniform over {largest grid value with 4 eps < D (x2), half, a tenth, random below it}, flats with eps in '
+               '{1,8,51,102,150,256}/1024; noise modes: uniform integers in [-eps, eps], extreme (+-eps), adversarial (+-eps with the '
+               'worst three-bin pattern for a neighbour of t planted at one level), one-sided; weights none (x2) / k/64 in [1/2,1] / '
+               '{1/2,1}; per level h=2..32 (flats also h=1,3,n,n+1) on HaarConv and FindLocalPeaks: |conv - conv(clean)| <= bound + 1e-9 '
+               '(clean = integer mirrored window sums; unweighted also the tent formula), |conv(t)| >= peak floor, |conv| <= bound at '
+               'distance >= h, strict maximum exactly at t and the per-bin drop (unweighted), argmax within h-1 (weighted), t among the '
+               'peaks and every other peak at distance >= h and noise-sized, thresholds in the gap keep exactly [t]; then haarSeg with the '
+               'thresholds the code itself computes (FDRThres tapped): where they satisfy the hypotheses of C11_noise_step_seg / '
+               'C11_noise_flat, or where no p-value passes at any level (the fallback regime of C11_noise_step_seg_fallback / '
+               'C11_noise_flat_fallback, p-values recomputed with scipy as the code does), the breakpoints must be exactly [t] / none as the '
+               'theorem says and the means within eps; weighted: every position at distance >= d strictly below |conv(t)| for the '
+               'smallest d with 4 h eps wmax < d D wmin; corpus/c11.json bounded_noise: fixed worst-pattern cases and the sharpness '
+               'witness D = 4 eps (tie conv(t+1) = conv(t)); HaarConv at h=2 and 32 also against the model. '
+               'monitoring: generated step/flat/mixed profiles per the quantifier through '
                'do_segmentation, stratified over direction and sign, weight pattern, bin-size regime and noise level. '
                'non-trivial = non-zero convolution / at least one peak / both lists non-empty / at least one breakpoint / every profile')
     ck.explanation = (
@@ -1274,16 +1612,50 @@ def run(ck, scratch):
         '(+ C11_clean_step_table); two separated noiseless steps give exactly the peaks [t1; t2] and never any '
         'other breakpoint (C11_two_steps); for any breakpoints every row mean is the (weighted) mean of exactly its bins and the rows '
         '(start/end coordinates from the first/last bin, probes) tile the arm (C11_segment_means, C11_step_means, C11_table, C11_sizes); '
-        'level unification is sorted, duplicate-free, keeps every base breakpoint and no add-on within a window. The model is tied to '
+        'level unification is sorted, duplicate-free, keeps every base breakpoint and no add-on within a window. '
+        'Bounded noise (deterministic part of the statistical clause, C11_noise_*, exact rationals, any n, any t with h bins on both '
+        'sides, any signal within eps of the clean one in every bin): noise moves every unweighted convolution value by at most '
+        '2 h eps / sqrt(2h) and every weighted one (positive weights) by at most 2 eps sqrt(h/2), mirrored edges included '
+        '(C11_noise_conv_bound[_weighted]); for a step of height D with 4 eps < D (sharp) the unweighted |conv| at every level has its '
+        'STRICT GLOBAL MAXIMUM EXACTLY AT t, is >= (h D - 2 h eps)/sqrt(2h) there, drops by >= (D - 4 eps)/sqrt(2h) per bin within h '
+        'of t and is <= the noise bound beyond (C11_noise_peak_location, _within_d); FindLocalPeaks returns t and otherwise only '
+        'noise-sized peaks at distance >= h, and every threshold between the noise bound and the peak floor keeps exactly [t] '
+        '(C11_noise_local_peaks, C11_local_peaks_sound); with the FDR threshold of each level as an oracle value in that range the '
+        'whole of haarSeg returns exactly the breakpoint t and means within eps of a, b (C11_noise_step_seg, _level_addon); flat '
+        'profiles: every value within the noise bound at every half-width, no peak survives a threshold above it, one segment with '
+        'mean within eps (C11_noise_flat); in the fallback branch of FDRThres (no passing p-value: the code\'s regime for every step '
+        'of height <= 1) nothing is assumed about the threshold value: haarSeg returns exactly [t] iff some level absorbs the 1e-16 '
+        '(|peak| >= 1 in binary64) or has t as its only peak, nothing otherwise, and a flat profile stays one segment '
+        '(C11_fdr_fallback_level/_none, C11_noise_level_addon_fallback, C11_noise_step_seg_fallback, C11_noise_flat_fallback); '
+        'weighted step, any positive weights: absolute bounds, maximum within h-1 of t (C11_noise_step_weighted); weights in '
+        '[wmin, wmax]: the weighted tent falls by at least wmin/(h wmax) per bin, so 4 h eps wmax < d D wmin puts the maximum within '
+        'd-1 bins of t (C11_noise_peak_within_d_weighted, C11_weighted_tent_slope); the '
+        'property\'s numbers: height >= 0.585, >= 100 bins per side, ANY noise with |e_i| <= 0.146 (0.25 for the one-copy steps) '
+        '(C11_noise_property_numbers). The model is tied to '
         'cnvlib.segmentation.haar by differential correspondence on dyadic inputs (HaarConv, FindLocalPeaks, FDRThres, UnifyLevels, '
         'SegmentByPeaks, haarSeg, one_chrom, segment_haar, PulseConv). The property text itself (noisy profiles, sd <= 0.1, '
         'Savitzky-Golay pre-smoothing, FDR threshold through the normal cdf, and the whole hmm-germline path through pomegranate) is NOT '
         'proved: it is monitored by evaluating the statement on generated profiles (coverage.monitoring).')
     ck.unproved_remainder = [
-        'SAMPLED, NOT PROVED: the noisy statistical claim for haar (exactly one breakpoint within 5 bins, means within 0.1, flat -> one '
-        'segment per arm, for Gaussian noise sd <= 0.1): coverage.monitoring.haar lists the number of profiles and the strata walked '
-        '(direction/sign, weight pattern, bin-size regime, noise level); a worst-case theorem is false at these parameters and a '
-        'probabilistic one needs tail bounds through scipy savgol + the FDR procedure',
+        'SAMPLED, NOT PROVED: the noisy statistical claim for haar at the property\'s noise level (exactly one breakpoint within 5 '
+        'bins, means within 0.1, flat -> one segment per arm, for GAUSSIAN noise sd <= 0.1): coverage.monitoring.haar lists the number '
+        'of profiles and the strata walked (direction/sign, weight pattern, bin-size regime, noise level). PROVED instead '
+        '(C11_noise_*, coverage.bounded_noise): the worst-case statement for every noise vector with |e_i| <= eps < D/4 (D/4 = 0.146 '
+        'for the +0.585 gain, 0.25 for the one-copy loss and the +1 gain) -- the peak of every level is exactly at t and every '
+        'spurious peak is noise-sized. Gaussian noise of sd 0.1 is not bounded by D/4 (a bin exceeds 0.146 with probability 0.14, '
+        '0.25 with probability 0.012, so a 200..800-bin profile almost surely has one), and at eps >= D/4 the worst-case statement is '
+        'false (three bins of noise +-D/4 move the peak); what remains statistical is therefore: (i) the tail of the noise beyond '
+        'D/4, (ii) the FDR threshold (normal-cdf p-values of the peaks against a MAD noise estimate: an oracle value in the theorems, '
+        'which hold for every threshold between the noise bound and the peak floor), (iii) the Savitzky-Golay pre-smoothing that '
+        'cnvkit applies before haarSeg (the smoothed profile is not clean-step-plus-bounded-noise)',
+        'unequal weights with noise (cnvkit passes the bin weights, so the real pipeline is in this case): proved are the absolute '
+        'bounds and the slope form -- maximum of |conv| within d-1 bins of t when 4 h eps wmax < d D wmin (weights in [1/2, 1]: '
+        '8 h eps < d D, i.e. exactly at t at level 1 for eps < D/16, within 5 bins at level 5 for eps < 3 D/128); the sharp '
+        '"exactly at t for eps < D/4 at every level" and the statement about FindLocalPeaks / the whole of haarSeg are proved for the '
+        'unweighted convolution only',
+        'which of the two FDR branches is taken (a p-value passes or not) and whether the flat profile\'s levels have 0 or >= 2 '
+        'peaks are properties of the noise realisation: hypotheses of the fallback theorems, observed (coverage.bounded_noise.'
+        'fallback_theorems) but not proved',
         'SAMPLED, NOT PROVED: everything about hmm-germline (pomegranate Baum-Welch fit, MAP decoding, squash_by_groups): '
         'coverage.monitoring.hmm-germline; outside the model',
         'two clean steps: which of the two peaks survive the two-peak FDR threshold depends on the p-value oracle and on the 1e-16 float '
